@@ -132,8 +132,44 @@ def malformed_cases(rnd, n):
     return out
 
 
+
+# ------------------------------------------------------------------ the lexer's rune loop on bytes (Model/Utf8.v)
+U8_BOUNDARY = [0x00, 0x09, 0x0a, 0x0d, 0x20, 0x61, 0x7f, 0x80, 0x8f, 0x90, 0x9f, 0xa0, 0xbf, 0xc0, 0xc1, 0xc2, 0xdf, 0xe0, 0xe1, 0xec, 0xed,
+               0xee, 0xef, 0xf0, 0xf1, 0xf3, 0xf4, 0xf5, 0xf7, 0xf8, 0xfb, 0xfc, 0xfd, 0xfe, 0xff]
+U8_LEADS = [0xc2, 0xdf, 0xe0, 0xe1, 0xed, 0xef, 0xf0, 0xf1, 0xf4]
+U8_TAILS = [0x7f, 0x80, 0x8f, 0x90, 0x9f, 0xa0, 0xbf, 0xc0]
+
+
+def utf8_byte_texts(rnd, quick):
+    """every byte string up to length 2 over all 256 bytes; every string lead x tail^1..3 over the boundary leads and tails
+    of Go's acceptRanges, alone and followed by `a`; every string up to length 3 (quick) / 4 over 35 boundary bytes sampled;
+    random mixes of well-formed multi-byte characters, tabs, line breaks and ill-formed pieces"""
+    out = [b""]
+    out += [bytes([a]) for a in range(256)]
+    out += [bytes([a, b]) for a in range(256) for b in range(256)]
+    for l in U8_LEADS:
+        for n in (1, 2, 3):
+            for tl in itertools.product(U8_TAILS, repeat=n):
+                out.append(bytes((l,) + tl))
+                out.append(bytes((l,) + tl) + b"a\n")
+    for tup in itertools.product(U8_BOUNDARY, repeat=3):
+        if quick and rnd.random() > 0.15:
+            continue
+        out.append(bytes(tup))
+    good = ["a", "\t", "\n", "\r\n", " ", "\u00e9", "\u20ac", "\U0001F600", "\ud7ff", "\ue000", "\ufffd", "\U0010FFFF", "\u0080", "\u07ff", "\u0800",
+            "\U00010000", ";", "{", "}", '"', "'"]
+    bad = [bytes([x]) for x in U8_BOUNDARY if x >= 0x80] + [b"\xe2\x82", b"\xf0\x9f\x98", b"\xed\xa0\x80", b"\xf4\x90\x80\x80", b"\xe0\x9f\xbf",
+                                                            b"\xf0\x8f\xbf\xbf", b"\xc0\xaf"]
+    for _ in range(1500 if quick else 30000):
+        parts = []
+        for _ in range(rnd.randint(1, 12)):
+            parts.append(rnd.choice(good).encode("utf-8", "surrogatepass") if rnd.random() < 0.7 else rnd.choice(bad))
+        out.append(b"".join(parts))
+    return out
+
 class Tally:
     def __init__(self, res):
+        self.u8 = dict(cases=0, mismatches=0, runes=0, replacement_runes=0, multibyte_runes=0)
         self.res = res
         self.n = 0
         self.corr_mism = 0
@@ -253,6 +289,28 @@ class Tally:
             elif v != "ambiguous":
                 self.nontrivial += 1
 
+    def run_lextrace(self, texts):
+        """lexer.next over the bytes: rune, width, line, col, tcol per call -- implementation (hook VerifLexerTrace) against the
+        extracted Model/Utf8.lexer_trace (decode + Lex.next)"""
+        res = self.res
+        cs = ["lextrace " + (b.hex() or "-") for b in texts]
+        go, ml = lib.run_go(cs), lib.run_ml(cs, shards=lib.NCPU)
+        self.n += len(texts)
+        st = self.u8
+        st["cases"] += len(texts)
+        for b, c, g, m in zip(texts, cs, go, ml):
+            if g != m:
+                st["mismatches"] += 1
+                self.corr_mism += 1
+                if st["mismatches"] <= 3:
+                    res.violation("the lexer's rune loop and the model disagree on bytes %r: impl=%s model=%s" % (b[:40], g[:200], m[:200]),
+                                  dict(kind="lextrace", case=c, impl=g, model=m))
+            else:
+                runes = [int(x.split(":")[0]) for x in g[6:].split(",")] if g != "trace -" else []
+                st["runes"] += len(runes)
+                st["replacement_runes"] += sum(1 for r in runes if r == 0xFFFD)
+                st["multibyte_runes"] += sum(1 for x in (g[6:].split(",") if g != "trace -" else []) if int(x.split(":")[1]) > 1)
+
     def run_chunked(self, kind, it):
         buf = []
         for t in it:
@@ -293,6 +351,7 @@ def run(res, tier, seed, proof):
     # U+FEFF, ...) are token characters: in unquoted tokens, between tokens, at the end, in strings and comments
     T.run_chunked("unicode-space", c16.unicode_space_texts())
     T.run_bytes("invalid-utf8", c16.invalid_utf8_texts())
+    T.run_lextrace(utf8_byte_texts(rnd, quick))
     T.run_chunked("unicode-space-exhaustive", c16.unicode_space_exhaustive(4 if quick else 5))
     # deep nesting: depths around powers of two and round numbers, with and without arguments / strings / siblings at every level,
     # balanced and unbalanced.  The extracted model needs about 1 s at depth 1000 and 45 s at 5000 (it recomputes lengths per
@@ -332,12 +391,14 @@ def run(res, tier, seed, proof):
                        "" if quick else "; all strings of length 7..8 (9 for braces) over four 5/6-symbol sub-alphabets", len(KWS), len(ARGS),
                        len(c16.FAULTS)),
                correspondence_mismatches=T.corr_mism, oracle_mismatches=T.oracle_mism, mismatches=T.corr_mism + T.oracle_mism,
-               model_out_of_fuel=T.oof, reference_reader_termination_invariance_checked=T.terminated_checked,
+               model_out_of_fuel=T.oof, lexer_rune_loop=T.u8, reference_reader_termination_invariance_checked=T.terminated_checked,
                distribution=dict(reference_verdicts=T.verdicts, implementation=T.impl, by_generator=T.kinds),
                samples=[s["case"] for s in T.samples], sample_observations=[s["impl"] + " | " + s["spec"] for s in T.samples])
-    return cov, ["UTF-8 decoding is done by the harness as utf8.DecodeRuneInString does it (modelled, not verified)",
-                 "agreement of yang.Parse with the reference reader on all texts is established by this sweep (testing), not by a theorem; "
-                 "the theorems cover the reject shape and the token-level lemmas listed in the manifest"]
+    return cov, ["UTF-8 decoding is the extracted Model/Utf8.decode (model of utf8.DecodeRuneInString as lexer.next calls it; theorems "
+                 "C02_decode_*); the lexer's own rune loop (rune, width, line, col, tcol per call of next) is compared with it on every byte "
+                 "string up to length 2, boundary sequences of Go's acceptRanges and random mixes (lexer_rune_loop in the coverage)",
+                 "yang.Parse is tied to the model by this sweep (testing); agreement of the model with the reference reader on ALL texts "
+                 "and byte strings is C02_accept / C02_reject / C02_accept_bytes / C02_reject_bytes (theorems)"]
 
 
 def replay(rep, res):
@@ -346,6 +407,9 @@ def replay(rep, res):
         print(rep)
         return 1
     go, ml = lib.run_go([c])[0], lib.run_ml([c])[0]
+    if rep.get("kind") == "lextrace":
+        print("case :", c, "\nimpl :", go, "\nmodel:", ml)
+        return 1 if go != ml else 0
     sp = lib.run_ml([c.replace("parse ", "specparse ", 1)])[0]
     print("case :", c, "\ntext :", repr(bytes.fromhex(c.split()[1].replace("-", "")).decode("utf-8", "replace")),
           "\nimpl :", go, "\nmodel:", ml, "\nspec :", sp)
